@@ -150,6 +150,20 @@ def gen_c03(g, budget, optional=False):
         elif r < 0.1:
             aj = alias_join(g)
             cls, content = aj["clauses"], aj["content"]
+        elif r < 0.2:
+            # a clause written with three constants whose AS alias repeats a binding of another clause: the join is on a
+            # value that cannot be handed to the driver lookup. The constant comes from a near-miss group that is
+            # entirely in the data (floats agreeing in six decimals, int64 beyond 2^53, one anchor in two spellings).
+            grp = g.rng.choice(NEAR_GROUPS)
+            content = sorted(set(g.content(4, 9)) | set(grp))
+            t = bqlu.TRIPLES[g.rng.choice(grp) - 1]
+            pos = g.rng.choice(["o", "o", "o", "p", "s"])
+            first = bqlgen.clause(bqlgen.S(b="?a") if pos != "s" else bqlgen.S(b="?v"),
+                                  (bqlgen.P(c=t[1]) if g.rng.random() < 0.6 else bqlgen.P(b="?p")) if pos != "p" else bqlgen.P(b="?v"),
+                                  bqlgen.O(b="?v") if pos == "o" else bqlgen.O(b="?o"))
+            spec = bqlgen.clause(bqlgen.S(c=t[0]), bqlgen.P(c=t[1]), bqlgen.O(cell=t[2]))
+            spec[pos]["as"] = "?v"
+            cls = [first, spec] if g.rng.random() < 0.7 else [spec, first]
         elif r < 0.4:
             cls = [mk(p_alias=0.3)]
         elif r < 0.8:
